@@ -3,6 +3,7 @@
 A *tree* is a nested tuple:
   ("null",) | ("list", ids, weights, scorer01) | ("term", j)            leaves
   ("union"|"dismax"|"inter"|"andnot"|"andmaybe"|"require", A, B)
+  ("dismax", A, B, tiebreak)      DisjunctionMaxMatcher(a, b, tiebreak=t), t > 0 (the option of query.DisjunctionMax)
   ("boost", b, A) | ("filter", ids, excl01, boost, A) | ("inverse", limit, missing, weight, A) | ("const", score, A)
 ("term", j) refers to posting list j of an `IndexSpec` (a real W3 posting list with small blocks).
 
@@ -129,6 +130,9 @@ def multi_quality_repaired():
     return _MULTI_FIXED[0]
 
 
+TIEBREAKS = (0.5, 0.25, 1.0, 2.0, 0.125)
+
+
 def gen_tree(rng, depth, kinds, leaf, boosts=(0.5, 1.0, 1.0, 0.25, 2.0, 4.0), nomulti=False):
     """`leaf(rng)` makes a leaf tuple"""
     if depth <= 0 or rng.random() < 0.2:
@@ -150,6 +154,9 @@ def gen_tree(rng, depth, kinds, leaf, boosts=(0.5, 1.0, 1.0, 0.25, 2.0, 4.0), no
             b = a           # the same list on both sides (full alignment)
         else:
             b = gen_tree(rng, depth - 1, kinds, leaf, boosts, nomulti)
+        if k == "dismax" and rng.random() < 0.5:
+            # the constructor option of the class (query.DisjunctionMax(..., tiebreak=t) hands it down)
+            return (k, a, b, rng.choice(TIEBREAKS))
         return (k, a, b)
     c = gen_tree(rng, depth - 1, kinds, leaf, boosts, nomulti)
     if k == "boost":
@@ -191,12 +198,15 @@ def gen_combo(rng, leaf=None):
     combo.py over sub-matchers of one shape (a leaf, or one binary/boost node over leaves)"""
     leaf = leaf or gen_list
     wrap = rng.choice([None, None, None, "union", "inter", "andnot", "andmaybe", "dismax", "boost"])
+    tb = rng.choice((0,) + TIEBREAKS[:2]) if wrap == "dismax" else 0     # one shape for all sub-matchers
 
     def kid():
         if wrap is None:
             return leaf(rng)
         if wrap == "boost":
             return ("boost", 0.5, leaf(rng))
+        if wrap == "dismax" and tb:
+            return (wrap, leaf(rng), leaf(rng), tb)
         return (wrap, leaf(rng), leaf(rng))
     kids = [kid() for _ in range(rng.choice([1, 2, 3, 3, 4]))]
     doccount = rng.choice([NDOCS, NDOCS, NDOCS, NDOCS + 6, 12])
@@ -424,6 +434,8 @@ def build_real(t, rix=None):
     if k == "union":
         return M.UnionMatcher(build_real(t[1], rix), build_real(t[2], rix))
     if k == "dismax":
+        if len(t) > 3:
+            return M.DisjunctionMaxMatcher(build_real(t[1], rix), build_real(t[2], rix), tiebreak=t[3])
         return M.DisjunctionMaxMatcher(build_real(t[1], rix), build_real(t[2], rix))
     if k == "inter":
         return M.IntersectionMatcher(build_real(t[1], rix), build_real(t[2], rix))
@@ -461,6 +473,8 @@ def tree_sexp(t, rix=None):
         return "(list %s %s %d)" % (sexp(list(t[1])), sexp([float(w) for w in t[2]]), t[3])
     if k == "term":
         return rix.leaf_sexp(t[1])
+    if k == "dismax" and len(t) > 3:
+        return "(dismax %s %s %s)" % (tree_sexp(t[1], rix), tree_sexp(t[2], rix), sexp(float(t[3])))
     if k in BIN:
         return "(%s %s %s)" % (k, tree_sexp(t[1], rix), tree_sexp(t[2], rix))
     if k == "boost":
